@@ -54,6 +54,35 @@ def alias_siblings(fx, res, rule):
                   "%s can answer without consulting %s (%s): a subcommand is not recognised by some of its aliases" % (fn_, it, bad or "no any() over the aliases"))
 
 
+def inference_candidates(fx, res, rule):
+    """Shared with C10 (a token wrongly taken for a subcommand makes a fault-free line fail)."""
+    # the candidates of an inference are ALL subcommands / arguments of the command (no pre-filter: a hidden or otherwise excluded item still
+    # answers to its exact name, so leaving it out of the candidates changes which prefixes are ambiguous), and a subcommand lookup answers
+    # only with the unique inferred candidate or the exact name
+    SRC = {"possible_subcommand": r"filter_map\(get_subcommands\(self\.cmd\),closure\([^()]*(\([^()]*\))?[^()]*\)\)",
+           "possible_long_flag_subcommand": r"filter_map\(get_subcommands\(self\.cmd\),closure\([^()]*(\([^()]*\))?[^()]*\)\)",
+           "parse_long_arg": r"filter_map\(get_arguments\(self\.cmd\),closure\([^()]*(\([^()]*\))?[^()]*\)\)"}
+    for fn_, srx in SRC.items():
+        b = fx.body("clap_builder::parser::parser::Parser::" + fn_)
+        its = set(expr(b, c.args[0]) for c in b.calls_to(r"Iterator>?::next$") if re.search(r"filter_map\(", expr(b, c.args[0])) and not re.search(r"into_iter\(", expr(b, c.args[0])))
+        for it in its:
+            res.check(re.fullmatch(srx, it) is not None, rule, "candidates-unfiltered|" + fn_, b.where(), "inference candidates drawn from every item of the command",
+                      "%s infers from a pre-filtered candidate list (%s): an item left out of the candidates (e.g. a hidden subcommand) still answers to its exact name, so prefixes are (un)ambiguous differently from what the names say" % (fn_, it[:110]))
+        if fn_ == "parse_long_arg":
+            continue
+        exact_rx = r"get_name\(find_subcommand\(self\.cmd,.*\)#Some\.0\)" if fn_ == "possible_subcommand" else r"find_long_subcmd\(self\.cmd,.*\)#Some\.0"
+        for d in b.def_sites(0):
+            rv = d[3]
+            if isinstance(rv, dict) and rv["k"] == "agg" and rv.get("variant") == "None":
+                continue
+            if isinstance(rv, dict) and rv["k"] == "use" and expr(b, rv["op"]) in ("next(%s)" % it for it in its):
+                continue
+            if isinstance(rv, dict) and rv["k"] == "agg" and rv.get("variant") == "Some" and re.fullmatch(exact_rx, expr(b, rv["ops"][0])):
+                continue
+            what = expr(b, rv["op"]) if isinstance(rv, dict) and rv["k"] == "use" else (expr(b, rv["ops"][0]) if isinstance(rv, dict) and rv.get("ops") else str(rv))
+            res.violation(rule, "lookup-answers|" + fn_, "%s bb%d" % (b.where(), d[0]), "%s can also answer %s: a token is taken for a subcommand although it is neither its exact name/alias nor a unique prefix (another spelling of an existing name, a value of a positional ...)" % (fn_, what[:120]))
+
+
 def run(ctx):
     fx, res = ctx.fx, ctx.res
     # ---- R8.1
@@ -132,6 +161,7 @@ def run(ctx):
         setrx = r"is_infer_subcommands_set\(" if "subcommand" in fn_ else r"is_infer_long_args_set\("
         if nx:
             res.check(has_bool(b, nx[0].bb, "T", setrx), "R8.3", "inference-gated|" + fn_, nx[0].where(), "prefix inference only when enabled", "%s infers prefixes without the setting" % fn_)
+    inference_candidates(fx, res, "R8.3")
     # possible_subcommand candidates must not be hidden-only aliases: get_aliases (hidden only) must not replace get_all_aliases
     b = fx.body("clap_builder::parser::parser::Parser::possible_subcommand")
     res.check(not tree_calls(b, r"Command::get_aliases$", r"Command::get_visible_aliases$"), "R8.3", "no-partial-alias-set|possible_subcommand", b.where(), "no visible-only / hidden-only alias iterator used",
